@@ -2,6 +2,8 @@ import Tw.Model.Demo
 import Tw.Proofs.Demo
 import Tw.Model.DemoHl
 import Tw.Proofs.DemoHl
+import Tw.Proofs.DemoHistory
+import Tw.Proofs.DemoTotal
 import Tw.Gen.Demo
 
 /-!
@@ -16,8 +18,9 @@ back, plus a malformed stream) and by the ties below.
 A file is a `List UInt8`; an `i32` is an `Int` satisfying `inI32`; `WResult.panic` is a Rust panic
 (the writer's way of refusing), `readFile … = none` a header the reader refuses.
 
-The Huffman round trip of the built-in table is the explicit hypothesis `HuffmanRoundTrip`
-(`Tw.Props.C07.roundtrip` with `table_wellFormed`, proved by the Huffman domain).
+The Huffman round trip of the built-in table (`HuffmanRoundTrip` in the helper lemmas) is discharged
+by C07 (`Tw.Huffman.decompress_compress` with the kernel-checked `wellFormed_table`):
+`Tw.DemoHl.huffmanRoundTrip`.  No theorem below carries a Huffman hypothesis.
 -/
 namespace Tw.Props.C15
 open Tw.Demo
@@ -132,24 +135,24 @@ theorem new_accepts_iff (a : HeaderArgs) :
 /-- One accepted chunk, written in any writer state, is read back (messages zero-padded to a
 multiple of four bytes) by a reader whose current tick is the writer's previous tick, without a
 warning, leaving the reader at the following bytes with the writer's new tick. -/
-theorem chunk_roundtrip (hH : HuffmanRoundTrip) (w w' : Writer) (c : Chunk) (hc : c.inRange)
+theorem chunk_roundtrip (w w' : Writer) (c : Chunk) (hc : c.inRange)
     (h : w.writeChunk c = (w', .ok)) :
     ∃ enc, w'.file = w.file ++ enc ∧ 1 ≤ enc.length ∧
       ∀ (v : Version) (rest : List UInt8), v.num ≥ 5 →
         Reader.readChunk { data := enc ++ rest, version := v, currentTick := w.prevTick } =
           ({ data := rest, version := v, currentTick := w'.prevTick }, .chunk c.padded, []) :=
-  writeChunk_ok hH w w' c hc h
+  writeChunk_ok huffmanRoundTrip w w' c hc h
 
 /-- **Round trip.** For every header the writer accepts and every chunk sequence `cs` all of whose
 `write_*` calls return `Ok` — whatever the tick gaps (inline or absolute markers), key-frame flags,
 payload sizes (any of the three size encodings) and message lengths — reading the written file
 returns the header fields, exactly `cs` with messages zero-padded to a multiple of four, reaches the
 end of the file without an error and raises no warning. -/
-theorem roundtrip (hH : HuffmanRoundTrip) (a : HeaderArgs) (ha : a.wf) (cs : List Chunk)
+theorem roundtrip (a : HeaderArgs) (ha : a.wf) (cs : List Chunk)
     (hcs : ∀ c ∈ cs, c.inRange) (w0 w : Writer) (hnew : Writer.new a = some w0)
     (hw : w0.writeAll cs = (w, .ok)) :
     readFile w.file = some (a.info, cs.map Chunk.padded, [], none) :=
-  readFile_written hH a ha cs hcs w0 w hnew hw
+  readFile_written huffmanRoundTrip a ha cs hcs w0 w hnew hw
 
 /-- The messages come back zero-padded to the next multiple of four: same bytes, then fewer than
 four zeros. -/
@@ -209,6 +212,9 @@ theorem tie_highlevel :
     ∧ Tw.Gen.Demo.write_snap_order = ["clear", "pack", "tick", "data"]
     ∧ Tw.Gen.Demo.write_snap_builder_sources = ["self.snap.clone().recycle()",
         "self.snap.clone().recycle()", "self.snap.clone().recycle()"]
+    ∧ Tw.Gen.Demo.hl_prechecks = ["write_snap: !fits_chunk", "write_msg: !fits_message"]
+    ∧ Tw.Gen.Demo.fits_chunk_cond = "data.len() <= MAX_SNAPSHOT_SIZE && HUFFMAN.compressed_len(data) <= u16::MAX.usize()"
+    ∧ Tw.Gen.Demo.fits_message_cond = "msg.len() <= MAX_SNAPSHOT_SIZE && self.pack_message(msg).is_ok() && Self::fits_chunk(&self.buffer2)"
     ∧ Tw.Gen.Demo.ddnet_obj_sizes = [(1, 10), (2, 6), (3, 5), (4, 4), (5, 3), (6, 8), (7, 4), (8, 15),
         (9, 22), (10, 5), (11, 17), (12, 3), (13, 2), (14, 2), (15, 2), (16, 2), (17, 3), (18, 3), (19, 3),
         (20, 3)] := by decide
@@ -246,7 +252,7 @@ theorem accepted_snap_ticks (objSize : Nat → Option Nat) (w w' : DemoWriter) (
     w.lastTick < tick ∧ w'.lastTick = tick
     ∧ w'.lastKeyframe = (if w.isKeyframe tick then some tick else w.lastKeyframe)
     ∧ (w.isKeyframe tick = true ↔ (w.lastKeyframe = none ∨ ∃ k, w.lastKeyframe = some k ∧ tick - k > 250)) := by
-  obtain ⟨hlt, b, b', bs, inner1, _, _, _, _, _, hw'⟩ := writeSnap_ok_inv objSize w w' tick items h
+  obtain ⟨hlt, b, b', bs, inner1, _, _, _, _, _, _, hw'⟩ := writeSnap_ok_inv objSize w w' tick items h
   refine ⟨hlt, by rw [hw'], by rw [hw'], ?_⟩
   unfold DemoWriter.isKeyframe
   cases hk : w.lastKeyframe with
@@ -257,10 +263,10 @@ theorem accepted_snap_ticks (objSize : Nat → Option Nat) (w w' : DemoWriter) (
 high-level reader (whatever snapshot it holds) as `Tick(tick)` followed by a snapshot chunk that
 reports exactly the objects of the snapshot the writer built, which becomes the reader's snapshot;
 no warning. -/
-theorem keyframe_roundtrip (hH : HuffmanRoundTrip) (objSize : Nat → Option Nat) (w w' : DemoWriter)
+theorem keyframe_roundtrip (objSize : Nat → Option Nat) (w w' : DemoWriter)
     (hinv : w.Inv) (tick : Int) (ht : inI32 tick) (items : List Item) (hv : ∀ it ∈ items, it.valid)
     (hk : w.isKeyframe tick = true) (h : w.writeSnap objSize tick items = (w', .ok)) :
-    ∃ enc, w'.inner.file = w.inner.file ++ enc ∧
+    ∃ enc, w'.inner.file = w.inner.file ++ enc ∧ 2 ≤ enc.length ∧
       ∀ (v : Version) (rest : List UInt8) (s0 : Snap), v.num ≥ 5 →
         ∃ r1, DemoReader.nextChunk objSize
             { raw := { data := enc ++ rest, version := v, currentTick := w.inner.prevTick }, snap := s0 } =
@@ -270,18 +276,16 @@ theorem keyframe_roundtrip (hH : HuffmanRoundTrip) (objSize : Nat → Option Nat
             | some its => ({ raw := { data := rest, version := v, currentTick := w'.inner.prevTick },
                              snap := w'.snap }, .chunk (.snapshot its), [])
             | none => (r1, .error .panic, []) :=
-  keyframe_step hH objSize w w' hinv tick ht items hv hk h
+  keyframe_step huffmanRoundTrip objSize w w' hinv tick ht items hv hk h
 
 /-- **Delta.** The bytes an accepted delta `write_snap` appends are read back by a reader that holds
 the writer's previous snapshot as `Tick(tick)` followed by a snapshot chunk with exactly the objects
-of the writer's new snapshot.  Partial: for snapshot pairs whose item sizes agree with each other and
-with the object-size table (always the case for typed objects; the excluded pairs make
-`Delta::create` panic — finding D15 of the snapshot crate). -/
-theorem delta_roundtrip_partial (hH : HuffmanRoundTrip) (objSize : Nat → Option Nat) (w w' : DemoWriter)
+of the writer's new snapshot.  No hypothesis on item sizes: that the call was accepted (`Delta::create`
+and `Delta::write` did not panic) already implies that they agree. -/
+theorem delta_roundtrip (objSize : Nat → Option Nat) (w w' : DemoWriter)
     (hinv : w.Inv) (tick : Int) (ht : inI32 tick) (items : List Item) (hv : ∀ it ∈ items, it.valid)
-    (hk : w.isKeyframe tick = false) (h : w.writeSnap objSize tick items = (w', .ok))
-    (hag : SizesAgree w.snap.raw w'.snap.raw) (hok : SizesOk objSize w'.snap.raw.items) :
-    ∃ enc, w'.inner.file = w.inner.file ++ enc ∧
+    (hk : w.isKeyframe tick = false) (h : w.writeSnap objSize tick items = (w', .ok)) :
+    ∃ enc, w'.inner.file = w.inner.file ++ enc ∧ 2 ≤ enc.length ∧
       ∀ (v : Version) (rest : List UInt8), v.num ≥ 5 →
         ∃ r1, DemoReader.nextChunk objSize
             { raw := { data := enc ++ rest, version := v, currentTick := w.inner.prevTick }, snap := w.snap } =
@@ -291,45 +295,89 @@ theorem delta_roundtrip_partial (hH : HuffmanRoundTrip) (objSize : Nat → Optio
             | some its => ({ raw := { data := rest, version := v, currentTick := w'.inner.prevTick },
                              snap := w'.snap }, .chunk (.snapshot its), [])
             | none => (r1, .error .panic, []) :=
-  delta_step hH objSize w w' hinv tick ht items hv hk h hag hok
+  delta_step' objSize w w' hinv tick ht items hv hk h
+
+/-- The objects of the snapshot an accepted `write_snap` builds — the ones the reader reports by the
+two theorems above — are exactly the objects handed in: same members, whatever the order of the
+iterator, for ordinal and UUID types alike. -/
+theorem accepted_snapshot_objects (objSize : Nat → Option Nat) (w w' : DemoWriter) (hinv : w.Inv2) (tick : Int)
+    (items : List Item) (hv : ∀ it ∈ items, it.valid)
+    (h : w.writeSnap objSize tick items = (w', .ok)) :
+    ∃ its, snapItems w'.snap = some its ∧ ∀ it, it ∈ its ↔ it ∈ items :=
+  accepted_snap_items objSize w w' hinv tick items hv h
 
 /-- **Message.** An accepted `write_msg` is read back as the same bytes zero-padded to a multiple of
 four; snapshot and tick state of writer and reader are untouched. -/
-theorem message_roundtrip (hH : HuffmanRoundTrip) (objSize : Nat → Option Nat) (w w' : DemoWriter)
+theorem message_roundtrip (objSize : Nat → Option Nat) (w w' : DemoWriter)
     (msg : List UInt8) (h : w.writeMsg msg = (w', .ok)) :
     w'.snap = w.snap ∧ w'.builder = w.builder ∧ w'.lastTick = w.lastTick ∧ w'.lastKeyframe = w.lastKeyframe ∧
-    ∃ enc, w'.inner.file = w.inner.file ++ enc ∧
+    ∃ enc, w'.inner.file = w.inner.file ++ enc ∧ 1 ≤ enc.length ∧
       ∀ (v : Version) (rest : List UInt8) (s0 : Snap), v.num ≥ 5 →
         DemoReader.nextChunk objSize
             { raw := { data := enc ++ rest, version := v, currentTick := w.inner.prevTick }, snap := s0 } =
           ({ raw := { data := rest, version := v, currentTick := w'.inner.prevTick }, snap := s0 },
             .chunk (.message (pad4 msg)), []) :=
-  msg_step hH objSize w w' msg h
+  msg_step huffmanRoundTrip objSize w w' msg h
 
-/-- The full typed-level statement of C15: for every header and every history of valid calls none of
-which panics, the high-level reader reports the header fields and, in order, for each accepted
-`write_snap` its tick and exactly the object set handed in (as a set), for each accepted `write_msg`
-its bytes zero-padded; it reaches the end without error or warning.  Not proved as one theorem: the
-per-call theorems above reduce it to (i) "the objects of the built snapshot are the objects handed
-in" and the size agreement of typed objects (snapshot crate, C09/C10), (ii) the induction over the
-history, (iii) the absence of the payload-limit panics (open finding D29). -/
+/-- The full typed-level statement of C15: for every header the writer accepts and every history of
+valid calls none of which panics, the high-level reader reports the header fields and, in order, for
+each accepted `write_snap` its tick and exactly the object set handed in, for each accepted
+`write_msg` its bytes zero-padded; refused calls leave no trace; the end of the file is reached
+without error or warning. -/
 def C15_full : Prop :=
-  HuffmanRoundTrip → ∀ (objSize : Nat → Option Nat) (a : HeaderArgs) (w0 w : DemoWriter) (ops : List Op)
+  ∀ (objSize : Nat → Option Nat) (a : HeaderArgs) (w0 w : DemoWriter) (ops : List Op)
     (rs : List HResult), a.wf → DemoWriter.new a = some w0 → (∀ op ∈ ops, op.valid) →
     w0.run objSize ops = (w, rs) → (∀ r ∈ rs, ∀ s, r ≠ .panic s) →
     ∃ cs, readFileHl objSize w.inner.file = some (a.info, cs, [], none) ∧ chunksAgree cs (expectedChunks ops rs)
 
-/-- D29 in the model: a 60 000-byte message of `0x80` bytes passes `write_msg`'s own length check and
-panics in the low-level writer (`overlong message`: 15 000 integers of five bytes each). -/
-theorem hl_writer_panics_witness (w : DemoWriter) :
-    (w.writeMsg (List.replicate (4 * 15000) 128)).2 = .panic "overlong message" := by
+/-- **The typed-level round trip over whole histories** (induction over the history with the
+invariant "the reader holds the writer's last snapshot and tick"; key frames and deltas by the
+per-call theorems, object sets by `accepted_snapshot_objects`). -/
+theorem typed_roundtrip : C15_full :=
+  fun objSize a w0 w ops rs ha hnew hval hrun hnp =>
+    Tw.DemoHl.typed_roundtrip objSize a w0 w ops rs ha hnew hval hrun hnp
+
+/-- Since the repair of D29, `write_msg` never panics: a message that does not fit into a chunk
+(encoded, packed or compressed size) is refused with `TooLongNetMsg` before anything is written. -/
+theorem writeMsg_never_panics (w : DemoWriter) (msg : List UInt8) (s : String) :
+    (w.writeMsg msg).2 ≠ .panic s :=
+  writeMsg_no_panic w msg s
+
+/-- … for instance the 60 000-byte message of `0x80` bytes that used to panic with "overlong
+message" (15 000 integers of five bytes each). -/
+theorem large_message_refused (w : DemoWriter) :
+    w.writeMsg (List.replicate (4 * 15000) 128) = (w, .err .tooLongNetMsg) := by
   have h1 : ¬ (List.replicate (4 * 15000) (128 : UInt8)).length > Tw.Gen.Demo.MAX_SNAPSHOT_SIZE := by
     rw [List.length_replicate]; decide
-  have h2 : (Tw.Demo.packInts (msgInts (List.replicate (4 * 15000) 128))).length > Tw.Gen.Demo.MAX_SNAPSHOT_SIZE := by
-    rw [msgInts_replicate, packInts_replicate_length]
+  have h2 : ¬ fitsMessage (List.replicate (4 * 15000) 128) := by
+    intro h
+    have h2 := h.2.1
+    rw [msgInts_replicate, packInts_replicate_length] at h2
     have : (Tw.Packer.writeInt (leWord 128 128 128 128)).length = 5 := by decide
-    rw [this]; decide
-  simp only [DemoWriter.writeMsg, Writer.writeMessage, h1, if_false, h2, if_true]
+    rw [this] at h2
+    revert h2; decide
+  simp only [DemoWriter.writeMsg, h1, if_false, h2, not_false_eq_true, if_true]
+
+/-! ## (6) the readers are total on arbitrary bytes -/
+
+/-- The low-level reader on **arbitrary** file bytes: it refuses the header, or returns chunks,
+warnings and at most one of its own errors; the fuel of the model's loops (`read_int` loop of the
+message branch, Huffman decoder, `read_chunk` loop) always suffices (`diverge` is impossible), and a
+returned chunk has used at least one byte of the file.  (The model of `Reader` has no panic outcome:
+its only slice index, `self.raw[..size]`, is bounded by the 16-bit size field.) -/
+theorem reader_total (file : List UInt8) (r : Reader) :
+    (∀ h cs ws, readFile file ≠ some (h, cs, ws, some .diverge))
+    ∧ (∀ r' ws, r.readChunk ≠ (r', .error .diverge, ws))
+    ∧ (∀ r' c ws, r.readChunk = (r', .chunk c, ws) → r'.data.length < r.data.length) :=
+  ⟨readFile_no_diverge file, (readChunk_total r).1, (readChunk_total r).2⟩
+
+/-- The high-level reader on **arbitrary** file bytes never panics (`Snap::read`, `Delta::read`,
+`read_with_delta`, the object iteration) and never runs out of fuel. -/
+theorem demo_reader_total (objSize : Nat → Option Nat) (file : List UInt8) (h : HeaderInfo) (cs : List HChunk)
+    (ws : List HWarning) :
+    readFileHl objSize file ≠ some (h, cs, ws, some .panic)
+    ∧ readFileHl objSize file ≠ some (h, cs, ws, some (.inner .diverge)) :=
+  readFileHl_total objSize file h cs ws
 
 /-! ## non-vacuity -/
 
